@@ -8,10 +8,10 @@ STAGES = ["core", "mono", "lift", "anf", "go"]
 CHAIN = ["src"] + STAGES
 FRONT_END = "front end (CST->AST lowering, derive, name resolution, typer elaboration, match compilation)"
 
-def run_sem(ctx, lines, cap=0, sub="sem"):
+def run_sem(ctx, lines, cap=0, sub="sem", env=None):
     p = subprocess.run(["bash", "-c", f"ulimit -s unlimited; exec {vlib.MODEL} {sub}"], input="\n".join(lines) + "\n",
                        stdout=subprocess.PIPE, stderr=subprocess.PIPE, text=True, timeout=3000,
-                       env=dict(os.environ, GV_CAP=str(cap)))
+                       env=dict(os.environ, GV_CAP=str(cap), **(env or {})))
     res = {}
     for l in p.stdout.split("\n"):
         f = l.split("\t")
@@ -151,6 +151,7 @@ def run(ctx):
     n_prog = n_agree = n_exp = n_exp_ok = n_fuel = n_extern = 0
     n_from_src = n_gen = n_gen_src = n_exp_src = n_exp_src_ok = 0
     fallback = {}
+    pending = []
     samples, distinct = [], set()
     derive_checked = 0
     for pid, d in progs.items():
@@ -219,8 +220,9 @@ def run(ctx):
                    "reference_stage": ref_stage}
         # stage-wise: first stage whose outcome differs from the reference.  Core dumps that need
         # type-passing dispatch are not executable by Sem (`stuck`): the chain then skips Core.
+        core_needs_types = o["core"][0].startswith("stuck") and not o["mono"][0].startswith("stuck")
         chain = [st for st in CHAIN[CHAIN.index(ref_stage):]
-                 if not (st == "core" and ref_stage == "src" and o["core"][0].startswith("stuck"))
+                 if not (st == "core" and ref_stage == "src" and core_needs_types)
                  and not (st == "go" and invalid_go)]
         div = next((st for st in chain if (o[st][0], o[st][1]) != (ref[0], ref[1])), None)
         if ext:
@@ -236,8 +238,7 @@ def run(ctx):
             if o[div][0].startswith("stuck"):
                 kind = "stage-output-not-executable:" + o[div][0][:60]
             blame = FRONT_END if (ref_stage == "src" and div == chain[1]) else f"the pass that produces {div}"
-            ctx.report({"oracle": "stagewise", "first_divergent_stage": div, "kind": kind},
-                       f"the {div} stage no longer behaves like the {ref_stage} stage ({blame})", dict(payload, blamed=blame))
+            pending.append((pid, div, kind, blame, payload, ref_stage))
         if invalid_go:
             continue
         g2 = d.get("go_cap2")
@@ -279,6 +280,20 @@ def run(ctx):
             distinct.add(ref[1] + "|" + str(len(d["stages"].get("go", ""))))
         if len(samples) < 3 and pid.startswith("gen"):
             samples.append({"id": pid, "src": (d.get("src") or "")[:600], "stdout": vlib.unesc(ref[1])[:200], "status": ref[0]})
+    # attribution: a front-end divergence that disappears when SrcSem runs the initialisers of struct
+    # literals in DECLARATION order (semantics parameter `litDeclOrder`) is exactly that choice
+    front = [p for p in pending if p[5] == "src" and p[3] == FRONT_END]
+    alt = {}
+    if front:
+        alt = run_sem(ctx, [f"{pid}|src\t{progs[pid]['stages']['src']}" for pid, *_ in front], sub="srcsem", env={"GV_SRC_LITORDER": "decl"})
+    for pid, div, kind, blame, payload, ref_stage in pending:
+        a = alt.get(f"{pid}|src")
+        o = progs[pid]["out"]
+        if a is not None and (a[0], a[1]) == (o[div][0], o[div][1]):
+            kind = "struct-literal-initialisers-run-in-declaration-order"
+            payload = dict(payload, src_with_declaration_order_initialisers={"status": a[0], "stdout": vlib.unesc(a[1])[:400]})
+        ctx.report({"oracle": "stagewise", "first_divergent_stage": div, "kind": kind},
+                   f"the {div} stage no longer behaves like the {ref_stage} stage ({blame})", dict(payload, blamed=blame))
     rejected = sum(1 for d in progs.values() if "reject" in d)
     panics = [d for d in progs.values() if "panic" in d]
     ctx.violations.sort(key=lambda v: len(v[2].get("src") or "x" * 10**6))
